@@ -127,4 +127,13 @@ def explode (s : List Nat) : List (List Nat) :=
 def split (s sep : List Nat) : List (List Nat) :=
   if sep = [] then explode s else splitGo sep 0 [] s
 
+/-- `strings.Replace(s, old, new, 1)` on bytes, `old` non-empty -/
+def replaceFirstBytes (pat rep : List Nat) : List Nat → List Nat
+  | [] => []
+  | c :: r => if pat.isPrefixOf (c :: r) then rep ++ (c :: r).drop pat.length else c :: replaceFirstBytes pat rep r
+
+/-- `strExecAtoi`: `v := Replace(s.value,"*^","e",1); v = Replace(v,"*10^","e",1); s.value = v` — the receiver is rewritten -/
+def atoiRewrite (s : List Nat) : List Nat :=
+  replaceFirstBytes [0x2A, 0x31, 0x30, 0x5E] [0x65] (replaceFirstBytes [0x2A, 0x5E] [0x65] s)
+
 end ZnVerif.Model.TextOps
